@@ -214,7 +214,9 @@ def updateReqs (ver : Bytes) (t : Target) (loc : Bytes) (ids : List Bytes)
           -- repaired (D27): an offset seen without a run id ("?", dbid −1) is not carried over
           let off : Int := if dbid < 0 then -1 else cpKv.offset
           [Req.hsetCp db loc (cpEntries { cpKv with runId := id1, offset := off } now), Req.hsetHash id1 loc]
-          ++ (if oldId ≠ [] ∧ oldId ≠ qmark then
+          -- repaired (D34): the entry read under the SAME key with the NEW id itself (an earlier attempt
+          -- got as far as writing it) is the one just written again - nothing old to delete
+          ++ (if oldId ≠ [] ∧ oldId ≠ qmark ∧ ¬ (oldId = id1 ∧ cpName = loc) then
                 o2.map (fun d => Req.hdelCp d cpName (fourKeys oldId))
                 ++ (if oldId ≠ id1 then [Req.hdelHash oldId] else [])
               else [])
@@ -235,6 +237,23 @@ def startIds (h : List (Bytes × Bytes)) : List Bytes → List Bytes
 def nextStart (ver : Bytes) (t : Target) (loc : Bytes) (ids : List Bytes) (o1 o2 : List Nat)
     (now : Int) : Target :=
   applyAll t (updateReqs ver t loc (startIds t.hash ids) o1 o2 now)
+
+/-- One attempt of `UpdateCheckpoint` that does not complete: the process stops, or a request gets an
+    error reply and the function returns — either way the `k` write requests before that point were
+    applied and nothing after (`k` ≥ the number of requests: the attempt completed). -/
+structure Attempt where
+  k   : Nat
+  now : Int
+  o1  : List Nat
+  o2  : List Nat
+
+/-- `RedisOutput.SetRunId(new)` — REPAIRED (D33): the old id is kept while attempts fail, so every
+    attempt of its `RetryLinearJitter`, and of a later call, is `UpdateCheckpoint(name, [new, old])`
+    on the target as the attempts before left it. -/
+def afterAttempts (ver loc : Bytes) (ids : List Bytes) : Target → List Attempt → Target
+  | t, [] => t
+  | t, a :: rest =>
+    afterAttempts ver loc ids (applyAll t ((updateReqs ver t loc ids a.o1 a.o2 a.now).take a.k)) rest
 
 /-! ### DelStaleCheckpoint / gcStaleCheckpoint -/
 
